@@ -209,6 +209,7 @@ class VirtRig:
         self.count_lines = count_lines
         self.prior = prior or []
         self.progress = progress     # observe the progress bars (a recording stand-in for labtech.lab.tqdm)
+        self.ctx_fail = False
         self.tnames = None
         self.dep_order = None
         self.int_lines = int_lines   # line-boundary injection: list of global line-event indices
@@ -492,6 +493,7 @@ class VirtRig:
         if cfg['storage']:
             D.prepare_storage(cfg, storage, self.shape_seed)
         built = D.Built(cfg, self.shape_seed, beh=self.beh)
+        built.ctx_fail = self.ctx_fail
         req = built.requested()
         if not cfg.get('twins') and not cfg.get('mainmod'):
             # the order in which a task's parameters mention its dependencies (an input the configuration leaves open)
@@ -538,7 +540,10 @@ class VirtRig:
         saved_mp = P.multiprocessing
         P.multiprocessing = VirtualMP(self)
         _verif.sink = self.sink
-        lab = labtech.Lab(storage=storage, context=D.lab_context(1, cfg['n']), runner_backend=rb,
+        main_ctx = D.lab_context(1, cfg['n'])
+        if self.ctx_fail:
+            main_ctx['failnow'] = list(cfg['fail'])      # (the earlier call on the same instances ran without it: all succeeded)
+        lab = labtech.Lab(storage=storage, context=main_ctx, runner_backend=rb,
                           max_workers=cfg['maxw'], continue_on_failure=cfg['cof'], notebook=False)
         self.muted = False
         self.trace.append({'e': 'call'})
